@@ -62,7 +62,7 @@ def _total(effects) -> float:
 # ------------------------------------------------------------------------------------------
 def led_space(tier):
     A, _ = _mods()
-    vals = [-1, 0, 1, 127, 254, 255, 256, 2.5, True] + ([64, 200, -0.5, 255.5, False] if tier == "thorough" else [])
+    vals = [-1, 0, 1, 127, 254, 255, 256, 2.5, True, 0.4, 0.999, 1e-9, -0.0] + ([64, 200, -0.5, 255.5, False, 254.999, 1.0] if tier == "thorough" else [])
     ops: List[Op] = [("on", (), {}), ("off", (), {}), ("toggle", (), {}), ("get_state", (), {}), ("get_brightness", (), {})]
     ops += [("set_brightness", (v,), {}) for v in vals]
     for d in (-1, 0, 10, 2.5):
@@ -213,12 +213,23 @@ def rgb_space(tier):
 # ------------------------------------------------------------------------------------------
 # Servo
 # ------------------------------------------------------------------------------------------
-def servo_space(tier, narrow: bool):
+SERVO_CFGS = {
+    "Servo": dict(min_angle=0.0, max_angle=180.0, min_pulse_us=544.0, max_pulse_us=2400.0),
+    "Servo[narrow]": dict(min_angle=10.0, max_angle=170.0, min_pulse_us=1000.0, max_pulse_us=2000.0),
+    "Servo[signed]": dict(min_angle=-90.0, max_angle=90.0, min_pulse_us=544.0, max_pulse_us=2400.0),
+    "Servo[negative]": dict(min_angle=-120.0, max_angle=-30.0, min_pulse_us=1000.0, max_pulse_us=2000.0),
+    "Servo[positive]": dict(min_angle=45.0, max_angle=60.0, min_pulse_us=900.0, max_pulse_us=2100.0),
+}
+
+
+def servo_space(tier, variant):
     A, _ = _mods()
-    if narrow:
-        cfg = dict(min_angle=10.0, max_angle=170.0, min_pulse_us=1000.0, max_pulse_us=2000.0)
-    else:
-        cfg = dict(min_angle=0.0, max_angle=180.0, min_pulse_us=544.0, max_pulse_us=2400.0)
+    if variant is True:
+        variant = "Servo[narrow]"
+    elif variant is False:
+        variant = "Servo"
+    cfg = SERVO_CFGS[variant]
+    narrow = variant
     lo_a, hi_a, lo_p, hi_p = cfg["min_angle"], cfg["max_angle"], cfg["min_pulse_us"], cfg["max_pulse_us"]
     angles = [lo_a - 1, lo_a, lo_a + 1, (lo_a + hi_a) / 2, 33.3, hi_a - 1, hi_a, hi_a + 1, -5, 1000, True]
     pulses = [lo_p - 1, lo_p, lo_p + 1, (lo_p + hi_p) / 2, 1234.5, hi_p - 1, hi_p, hi_p + 1, 0, 99999]
@@ -260,7 +271,7 @@ def servo_space(tier, narrow: bool):
             return f"{name}() changed the object"
         return None
 
-    return ("Servo[narrow]" if narrow else "Servo"), (lambda: A.Servo(9, **cfg)), ops, canon, check_state, check_step, None
+    return variant, (lambda: A.Servo(9, **cfg)), ops, canon, check_state, check_step, None
 
 
 # ------------------------------------------------------------------------------------------
@@ -355,7 +366,7 @@ def motor_space(tier):
 
 
 def spaces(tier):
-    return [led_space(tier), rgb_space(tier), servo_space(tier, False), servo_space(tier, True), motor_space(tier)]
+    return [led_space(tier), rgb_space(tier)] + [servo_space(tier, v) for v in SERVO_CFGS] + [motor_space(tier)]
 
 
 def _ops_to_json(history):
